@@ -69,6 +69,7 @@ func vhTable(f *sdb.VerifFile, root int, leaves, per, ncols, short int, nullFirs
 }
 
 type vhSchemaCase struct {
+	names    []string
 	sql      string
 	ncols    int
 	rowidCol int // column aliasing the rowid, or -1
@@ -77,9 +78,11 @@ type vhSchemaCase struct {
 }
 
 var vhSchemas = []vhSchemaCase{
-	{sql: "CREATE TABLE t (a, b, c)", ncols: 3, rowidCol: -1},
-	{sql: "CREATE TABLE t (id INTEGER PRIMARY KEY, b, c DEFAULT 7)", ncols: 3, rowidCol: 0, defaults: []int64{0, 0, 7}, hasDef: []bool{false, false, true}},
-	{sql: "CREATE TABLE \"t\" (a TEXT UNIQUE, b integer, primary key(b DESC))", ncols: 2, rowidCol: 1},
+	{names: []string{"a", "b", "c"}, sql: "CREATE TABLE t (a, b, c)", ncols: 3, rowidCol: -1},
+	{names: []string{"id", "b", "c"}, sql: "CREATE TABLE t (id INTEGER PRIMARY KEY, b, c DEFAULT 7)", ncols: 3, rowidCol: 0, defaults: []int64{0, 0, 7}, hasDef: []bool{false, false, true}},
+	{names: []string{"a", "b"}, sql: "CREATE TABLE \"t\" (a TEXT UNIQUE, b integer, primary key(b DESC))", ncols: 2, rowidCol: 1},
+	// ordinary columns that happen to be called like the rowid: the column wins
+	{names: []string{"oid", "b", "_rowid_"}, sql: "CREATE TABLE t (oid, b, _ROWID_ DEFAULT 7)", ncols: 3, rowidCol: -1, defaults: []int64{0, 0, 7}, hasDef: []bool{false, false, true}},
 }
 
 var vhColumnSets = [][]string{
@@ -91,10 +94,10 @@ var vhColumnSets = [][]string{
 	{"id", "c"},
 }
 
-//verif:shards 3
-//verif:bounds 3 table definitions (plain, INTEGER PRIMARY KEY alias with DEFAULT, table-constraint rowid alias) x 6 column lists (permutations, duplicates, rowid/oid/_rowid_, case variants, unknown names) x trees of 1 leaf or interior+2 leaves with 1..2 rows per leaf; row values and rowids any int64; first-leaf rows optionally one column short (ALTER TABLE ADD COLUMN)
+//verif:shards 4
+//verif:bounds 4 table definitions (plain, INTEGER PRIMARY KEY alias with DEFAULT, table-constraint rowid alias, ordinary columns named oid/_rowid_) x 6 column lists (permutations, duplicates, rowid/oid/_rowid_, case variants, unknown names) x trees of 1 leaf or interior+2 leaves with 1..2 rows per leaf; row values and rowids any int64; first-leaf rows optionally one column short (ALTER TABLE ADD COLUMN)
 func VH_C01_select() {
-	sc := vhSchemas[sdb.VerifShard(3)]
+	sc := vhSchemas[sdb.VerifShard(4)]
 	cols := vhColumnSets[sdb.VerifChoice(len(vhColumnSets))]
 	leaves := 1 + sdb.VerifChoice(2)
 	per := 1 + sdb.VerifChoice(2)
@@ -111,12 +114,9 @@ func VH_C01_select() {
 	db := &DB{db: d}
 	// which requested columns exist?
 	known := true
-	names := map[string]int{"a": 0, "b": 1, "c": 2}
-	if sc.rowidCol == 0 {
-		names = map[string]int{"id": 0, "b": 1, "c": 2}
-	}
-	if sc.ncols == 2 {
-		names = map[string]int{"a": 0, "b": 1}
+	names := map[string]int{}
+	for i, n := range sc.names {
+		names[n] = i
 	}
 	type want struct {
 		col   int
